@@ -293,7 +293,7 @@ CLAUSES = [
                 "the three dictionaries compared as sets (label lists as multisets) after every step"),
     Clause("hist_exhaustive_corr", "corr", gen_hist_exh, run_history, judge_history_corr, lean=lean_history,
            nontrivial=nontrivial_hist, site="fsa.FSA mutators", budget={"quick": 2500, "thorough": 120000},
-           what="bounded-exhaustive histories over 3 vertices x 2 labels (49-operation alphabet, two initial automata), depth 1,2,3,4 until the cap"),
+           what="bounded-exhaustive histories over 3 vertices x 2 labels (58-operation alphabet incl. has_edge queries, two initial automata), depth 1,2,3,4 until the cap"),
     Clause("builtin_corr", "corr", gen_builtin, run_builtin, judge_builtin, lean=lean_builtin,
            site="fsa.load_builtin / kbmag_utils.build_dict", budget={"quick": 18, "thorough": 18},
            what="all built-in .wa/.geowa files: parsed table -> model fromKbmag vs load_builtin"),
